@@ -81,7 +81,7 @@ def run_case(case):
         for i, c in enumerate(_CON):
             after = execute(c, fixed)
             if after[0] != "ok":
-                res["fails"].append({"clause": "fixed_not_executable", "features": {}, "detail": {"fixed": fixed[:300], "err": after[1], "instance": i}, "case": one})
+                res["fails"].append({"clause": "fixed_not_executable", "features": {"new_double_dash": ("--" in fixed and "--" not in text)}, "detail": {"fixed": fixed[:300], "err": after[1], "instance": i}, "case": one})
                 break
             a, b = before[i][1], after[1]
             same = (a == b) if ordered else (sorted(map(repr, a)) == sorted(map(repr, b)))
